@@ -124,7 +124,9 @@ def snapshot(detector) -> dict:
         snap[name] = bucket_state(detector, name)
     snap["public_empty"] = {name: public_empty(detector, name) for name in BUCKETS}
     try:
-        snap["scene_empty"] = bool(detector.scene.data.is_empty)
+        # (DataTree.is_empty looks at the root node only; sources live in the children /list/<n>)
+        snap["scene_empty"] = all(bool(node.is_empty) for node in detector.scene.data.subtree)
+        snap["scene_sources"] = sum(1 for node in detector.scene.data.subtree if not node.is_empty)
     except Exception as exc:  # noqa: BLE001
         snap["scene_empty"] = f"error {exc!r}"
     try:
@@ -260,7 +262,7 @@ def writer2(detector, **kwargs) -> None:
     keep(detector)
     ev.update(clock(detector))
     emit(ev)
-    rest = [n for n in names if n not in ("scene", "data", "pixel+", "pixel@", "clusters")]
+    rest = [n for n in names if n not in ("scene", "data", "pixel+", "pixel@", "pixel=charge", "clusters")]
     _do_write(detector, rest, seed, kwargs.get("dtypes") or {}, step)
     if "scene" in names:
         detector.scene.add_source(make_source(seed * 1000 + step))
@@ -279,6 +281,10 @@ def writer2(detector, **kwargs) -> None:
             init_hor_position=rng.random(n) * cols * detector.geometry.pixel_horz_size,
             init_z_position=np.zeros(n), init_ver_velocity=np.zeros(n), init_hor_velocity=np.zeros(n),
             init_z_velocity=np.zeros(n))
+    if "pixel=charge" in names:
+        # hands the array returned by the charge container over to the pixel container (no copy), as a
+        # user-written collection model may do: emptying 'charge' later must not wipe 'pixel'
+        detector.pixel.array = detector.charge.array
     if "pixel@" in names:
         # purely in place, through the getter only (no setter call): np.add(..., out=pixel.array)
         arr = gen_array(detector.geometry.shape, "float64", (seed, step, 3))
